@@ -51,7 +51,7 @@ def observed(step):
     return {"oc": oc if oc in ("val", "ee", "bv") else "ex", "out": step["out"], "v": v}
 
 
-def compare(ck, pid, text, exp, o, parser):
+def compare(ck, pid, text, exp, o, parser, key=None):
     if "died" in o:
         ck.violation(f"died:{pid}", f"process died ({o['died']}) [{parser}] on: {text[:300]}", {"program": text})
         return False
@@ -60,10 +60,24 @@ def compare(ck, pid, text, exp, o, parser):
     if want["oc"] in ("val", "bv") and want["v"] == "":
         got["v"] = ""      # the reference does not predict a value (void / container): only outcome and output are compared
     if got != want:
-        ck.violation(f"prog:{pid}:{parser}", f"[{parser}] engine printed {got['out']} -> {got['oc']} {got['v']}; reference interpreter: {want['out']} -> {want['oc']} {want['v']}; program: {text[:500]}",
+        ck.violation(key or f"prog:{pid}:{parser}", f"[{parser}] engine printed {got['out']} -> {got['oc']} {got['v']}; reference interpreter: {want['out']} -> {want['oc']} {want['v']}; program: {text[:500]}",
                      {"program": text, "parser": parser, "expected": want, "observed": got, "why": o["steps"][0].get("why")})
         return False
     return True
+
+
+ID = lambda n: {"k": "id", "n": n}
+S = lambda v: {"k": "str", "v": v}
+# hand-written programs (as ASTs, evaluated by the reference like every other program) for recorded findings
+FIXED = {
+    "known:return-value-flag-on-parameter": [
+        {"k": "def", "n": "keep", "params": [{"n": "p", "ty": ""}], "guarded": False, "guard": {"k": "bool", "v": True},
+         "b": [{"k": "var", "n": "t", "e": ID("p")}, {"k": "casg", "op": "+=", "bop": "+", "l": ID("t"), "e": S("x")}, {"k": "expr", "e": ID("p")}]},
+        {"k": "out", "e": {"k": "call", "f": "keep", "a": [{"k": "bin", "op": "+", "l": S("a"), "r": S("b")}]}},
+        {"k": "var", "n": "named", "e": S("ab")},
+        {"k": "out", "e": {"k": "call", "f": "keep", "a": [ID("named")]}},
+        {"k": "expr", "e": {"k": "int", "v": 0}}],
+}
 
 
 def run(ck, tier, seed):
@@ -73,6 +87,10 @@ def run(ck, tier, seed):
     progs = []
     for i in range(1500 if quick else 20000):
         progs.append({"id": i, "prog": g.program()})
+    fixed_ids = {}
+    for key, prog in FIXED.items():
+        fixed_ids[len(progs)] = key
+        progs.append({"id": len(progs), "prog": prog})
     exp = reference(progs, work, "c03", shards=12)
     progs = [p for p in progs if exp[p["id"]]["oc"] != "fuel"]
     cases = []
@@ -91,7 +109,7 @@ def run(ck, tier, seed):
         if not e["balanced"]:
             unbalanced += 1
         for parser in ("opt", "noopt"):
-            compare(ck, p["id"], p["text"], e, obs[f"{p['id']}.{parser}"], parser)
+            compare(ck, p["id"], p["text"], e, obs[f"{p['id']}.{parser}"], parser, key=fixed_ids.get(p["id"]))
     if unbalanced:
         ck.violation("reference-unbalanced", f"the reference interpreter left its scope stack unbalanced on {unbalanced} programs", None)
     ck.states += len(progs)
